@@ -164,8 +164,16 @@ func (p *polling) onDataRequest(ctx *types.HttpContext) {
 		packet = types.NewStringBuffer(nil)
 	}
 	if body := ctx.Request().Body; body != nil {
-		packet.ReadFrom(body)
+		// a body without a declared length (chunked) is bounded here: read one byte more than allowed
+		packet.ReadFrom(io.LimitReader(body, p.MaxHttpBufferSize()+1))
 		body.Close()
+	}
+	if int64(packet.Len()) > p.MaxHttpBufferSize() {
+		cleanup()
+
+		ctx.SetStatusCode(http.StatusRequestEntityTooLarge)
+		ctx.Write(nil)
+		return
 	}
 	p.Proto().OnData(packet)
 
